@@ -1,4 +1,5 @@
-\* inputs with >= 128 bytes of leading whitespace (all top kinds, <= 2 entries of the class representatives); exported
+\* REPAIRED model; all top-level kinds, <= 2 class representatives, with and without long leading whitespace
+\* measured: 8 924 distinct / 11 202 generated states, depth 12
 CONSTANTS
   Methods <- MCMethods
   EntryAlphabet <- EntriesSmall
